@@ -170,17 +170,7 @@ fn markgen_canonical(id: u32) -> CanonicalAddr {
     Sha256::digest(format!("markgen-{}", id).as_bytes()).to_vec().into()
 }
 
-/// Reference derivation of the classic (unsalted) contract address.
-pub fn classic_canonical(code_id: u64, instance_id: u64) -> CanonicalAddr {
-    let mut key = b"wasm\0".to_vec();
-    key.extend_from_slice(&code_id.to_be_bytes());
-    key.extend_from_slice(&instance_id.to_be_bytes());
-    let module = Sha256::digest(b"module");
-    let mut h = Sha256::new();
-    h.update(module);
-    h.update(&key);
-    h.finalize().to_vec().into()
-}
+use crate::util::classic_canonical;
 
 fn api_prefix(id: u32) -> &'static str {
     const P: [&str; 8] = ["pfxa", "pfxb", "pfxc", "pfxd", "pfxe", "pfxf", "pfxg", "pfxh"];
